@@ -152,6 +152,8 @@ class Subgraph:
         self.input_tensors = []
         # Preserve the original input order
         self.original_inputs = []
+        # Position in output_tensors of every entry of the original output list (a tensor can be listed twice)
+        self.original_output_positions = None
         # Attach virtual outputs to resource variables op
         # in order to be able to traverse the graph correctly
         self.virtual_outputs = []
